@@ -18,7 +18,8 @@ pub struct Ctx {
     pub deadline: std::time::Instant,
 }
 impl Ctx {
-    pub fn quick(&self) -> bool { self.tier == "quick" }
+    pub fn quick(&self) -> bool { self.tier == "quick" || self.tier == "mini" }
+    pub fn mini(&self) -> bool { self.tier == "mini" }
     pub fn mine(&self, idx: usize) -> bool { idx % self.nshards == self.shard }
     pub fn out_of_time(&self) -> bool { std::time::Instant::now() >= self.deadline }
 }
